@@ -71,6 +71,8 @@ fn main() {
         "gen-rel" => relfam::gen_rel(&args),
         "gen-loops" => semfam::gen_loops(&args),
         "gen-templates" => tmplfam::gen_templates(&args),
+        "replay-gc" => gcfam::replay_gc(&args),
+        "gen-heap" => gcfam::gen_heap(&args),
         "show" => semfam::show(&args),
         other => {
             eprintln!("unknown command {other}");
